@@ -70,6 +70,7 @@ func H09d() {
 	}
 
 	err := basicServiceValidator{}.Validate(doc)
+	vObserve("accepted", err == nil)
 
 	if err != nil {
 		vCover("rejected")
